@@ -13,6 +13,14 @@ from speclib import *
 from spec.c07 import *
 
 from fpy2.analysis.partial_eval import _PartialEvalInstance
+from fpy2.interpret.value import Foreign
+from fpy2.number import Context, Float
+from fractions import Fraction
+
+# key sort `PEValue`: a statically known value (fpy2.interpret.value.Value).  Only its class matters here
+# (`isinstance(val, Context)`); Float / Foreign stand for every value that is not a Context
+# (bool, list and tuple values included: builtins are not key classes)
+PEValue = Context | Float | Foreign
 
 
 # ------------------------------------------------------------------ (1) scrubbing of tuple bindings
